@@ -19,6 +19,8 @@ inductive PState
   | wait                -- `<-errs`
   | gz                  -- closing the gzip writer (one more output write)
   | done (ok : Bool)
+  | failM               -- the xml encoder itself failed (a value that cannot be marshalled): close the
+                        -- write side, wait for the filter, return the error
   deriving DecidableEq, Repr
 
 inductive CState
@@ -39,6 +41,8 @@ structure St where
   gzip : Bool
   failed : Bool          -- an output write has failed
   delivered : Nat        -- document bytes written to the output
+  merr : Bool            -- the document cannot be marshalled to the end: after the chunks `cs` the xml
+                         -- encoder returns an error of its own
   deriving DecidableEq, Repr
 
 inductive Actor | producer | consumer
@@ -55,7 +59,7 @@ def step (s : St) (a : Actor) (t : Nat) : Option St :=
   | .producer, .send false, _ =>
     if s.rClosed then some { s with p := .failW }
     else match s.cs with
-      | [] => some { s with p := .closeW }
+      | [] => if s.merr then some { s with p := .failM } else some { s with p := .closeW }
       | c :: rest => some { s with p := .send true, avail := c, cs := rest }
   | .producer, .send true, _ =>
     if s.rClosed then some { s with p := .failW, avail := 0 }
@@ -63,9 +67,11 @@ def step (s : St) (a : Actor) (t : Nat) : Option St :=
     else none                                   -- blocked in the pipe write
   | .producer, .failW, _ => some { s with p := .wait, wClosed := true }
   | .producer, .closeW, _ => some { s with p := .wait, wClosed := true }
+  | .producer, .failM, _ => some { s with p := .wait, wClosed := true }
   | .producer, .wait, .exited ok =>
     if !ok then some { s with p := .done false }
     else if s.failed then some { s with p := .done false }      -- the xml encoder's own error
+    else if s.merr then some { s with p := .done false }        -- the marshalling error
     else if s.gzip then some { s with p := .gz }
     else some { s with p := .done true }
   | .producer, .wait, _ => none                 -- blocked on the channel
@@ -102,9 +108,9 @@ def step (s : St) (a : Actor) (t : Nat) : Option St :=
   | .consumer, _, _ => none
 
 /-- initial state: chunks `cs` carry the document whose lines have lengths `ls` -/
-def init (cs ls : List Nat) (k : Option Nat) (gzip : Bool) : St :=
+def init (cs ls : List Nat) (k : Option Nat) (gzip : Bool) (merr : Bool := false) : St :=
   { p := .hdr, c := .idle, cs := cs, avail := 0, wClosed := false, rClosed := false, pend := 0, ls := ls,
-    wcount := 0, k := k, gzip := gzip, failed := false, delivered := 0 }
+    wcount := 0, k := k, gzip := gzip, failed := false, delivered := 0, merr := merr }
 
 inductive Reachable (s0 : St) : St → Prop
   | refl : Reachable s0 s0
@@ -115,7 +121,7 @@ def Terminal (s : St) : Prop := ∀ a t, step s a t = none
 /-! ### Termination: every step decreases a measure -/
 
 def pRank : PState → Nat
-  | .hdr => 7 | .send false => 5 | .send true => 6 | .failW => 4 | .closeW => 4 | .wait => 3 | .gz => 2 | .done _ => 0
+  | .hdr => 7 | .send false => 5 | .send true => 6 | .failW => 4 | .closeW => 4 | .failM => 4 | .wait => 3 | .gz => 2 | .done _ => 0
 
 def cRank : CState → Nat
   | .idle => 2 | .run => 1 | .exited _ => 0
@@ -128,7 +134,7 @@ def μ (s : St) : Nat :=
 /-- every step of every actor, with any read size, strictly decreases μ: no schedule is infinite -/
 theorem step_decreases (s s' : St) (a : Actor) (t : Nat) (h : step s a t = some s') : μ s' < μ s := by
   unfold step at h
-  cases a <;> rcases hp : s.p with _ | (_ | _) | _ | _ | _ | _ | _ <;> rcases hc : s.c with _ | _ | _ <;>
+  cases a <;> rcases hp : s.p with _ | (_ | _) | _ | _ | _ | _ | _ | _ <;> rcases hc : s.c with _ | _ | _ <;>
     simp only [hp, hc] at h <;>
     (repeat' (split at h)) <;>
     first
